@@ -344,8 +344,37 @@ def part_caller(n, seed):
     return viol, cnt
 
 
+def part_effect(n, seed):
+    """'takes effect with exactly the supplied value': the stored value is not enough - for random_seed (incl. the falsy
+    0 / 0.0 / False-like spellings) the starting point drawn when x0 is omitted must be a function of the seed alone, and
+    the run must report that seed."""
+    rs = np.random.RandomState(seed)
+    viol, cnt = {}, {}
+    seeds = [0, 0, 1, 7, 2**32 - 1, np.int64(0), int(rs.randint(2, 10**6))]
+    for t in range(n):
+        D = int(rs.randint(1, 4))
+        sd = seeds[t % len(seeds)]
+        x0s = []
+        for amb in (int(rs.randint(10**6)), int(rs.randint(10**6))):
+            np.random.seed(amb)
+            np.random.rand(int(rs.randint(1, 50)))
+            b = mk(D, {"display": "off", "random_seed": sd, "max_fun_evals": 12})
+            x0s.append(np.array(b.x0, float, copy=True))
+            cnt["C20.seed_effect_constructions"] = cnt.get("C20.seed_effect_constructions", 0) + 1
+        if not np.array_equal(x0s[0], x0s[1]):
+            viol.setdefault("C20/user-random-seed-has-no-effect", {"random_seed": repr(sd), "x0_first": x0s[0], "x0_second": x0s[1], "D": D,
+                                                                  "note": "two instances with the same seed drew different starting points under different ambient RNG states"})
+        if t % 3 == 0:
+            np.random.rand(3)
+            r = b.optimize()
+            cnt["C20.seed_effect_runs"] = cnt.get("C20.seed_effect_runs", 0) + 1
+            if r["random_seed"] is None or r["random_seed"] != sd:
+                viol.setdefault("C20/user-random-seed-not-reported", {"random_seed": repr(sd), "reported": repr(r["random_seed"])})
+    return viol, cnt
+
+
 def cases(tier, seed):
-    out = []
+    out = [{"kind": "effect", "n": 14 if tier == "quick" else 140, "seed": seed + 77}]
     Ds = [2] if tier == "quick" else [1, 2, 3, 5, 8]
     for D in Ds:
         for lo in range(0, 200, 25):
@@ -370,6 +399,8 @@ def run_case(case):
         viol, cnt = part_subsets(case["n"], case["seed"])
     elif k == "unknown":
         viol, cnt = part_unknown(case["n"], case["seed"])
+    elif k == "effect":
+        viol, cnt = part_effect(case["n"], case["seed"])
     elif k == "isolation":
         viol, cnt, norders = part_isolation(case["n"], case["seed"])
         extra["orders"] = norders
